@@ -39,7 +39,7 @@ def Err.name : Err → String
 
 /-- The state-relevant opcodes. -/
 inductive Op where
-  | sstore | tstore | log (n : Nat) | selfdestruct
+  | sstore | tstore | log (n : Fin 5) | selfdestruct
   | call | callcode | delegatecall | staticcall | create | create2 | authcall
   | stake | unstake | unstakeall
   deriving DecidableEq, Repr, Inhabited
@@ -85,7 +85,7 @@ inductive Frame where
   | done (e : Ending)
   | sstore (k v : Nat) (rest : Frame)
   | tstore (k v : Nat) (rest : Frame)
-  | log (n tag : Nat) (rest : Frame)
+  | log (n : Fin 5) (tag : Nat) (rest : Frame)
   | selfdestruct (beneficiary : Addr)
   | call (id : Nat) (kind : CallKind) (target : Addr) (value : Nat) (body rest : Frame)
   | create (id : Nat) (two : Bool) (salt : Nat) (value : Nat) (init rest : Frame)
